@@ -10,6 +10,7 @@ timer of that instant, fired in heap order among the block's own timers), 'A' (a
 The k-th put carries id k+1; stop_data carries id 99.
 """
 import asyncio
+import contextvars
 import itertools
 
 import edzed
@@ -31,11 +32,16 @@ RULE = ("scripts on the virtual clock (tick 0.25 s): 1..3 arrivals on the slots 
         "stops the simulation (stop() is recorded where it really happens), stop_timeout big or 3. Late part: "
         "<=2 arrivals, stop at 1/3/5 placed B/T/A, and 1..2 puts sent to the block as internal events around and "
         "after its stop(): in the very step of stop() (S), from another block's stop_async (N), or B/T/A at 0..3 "
-        "ticks after the stop, with user coroutines whose cancellation takes 0 or 3 extra loop iterations. thorough "
+        "ticks after the stop, with user coroutines whose cancellation takes 0 or 3 extra loop iterations. No-argument "
+        "part: the block is built with f_args=() / f_kwargs=() and a coroutine that takes nothing; <=2 arrivals on "
+        "3 slots, every subset of them with EMPTY event data (`blk.event('put')` as a direct call), stop_data absent / "
+        "{} / ordinary, stop at 1/3/5 placed A/B; the harness tells the puts apart by the identity of the data object. "
+        "thorough "
         "enumerates both parts completely and adds random scripts with 4 arrivals on 10 slots, durations 1..4, mixed "
         "placements, any number of failing runs, guard 1..3 and (40 %) a stop_timeout of 1..12 ticks, (15 %) on_error=Event.abort(); quick "
-        "takes a random 3 % sample of the first two parts and of the late part, 20 % of the abort part, plus 3000 "
-        "random scripts (30 % of them with late puts, 30 % with slow cancellation). Compared with the Lean model: the complete time-stamped log of output changes, "
+        "takes a random 3 % sample of the first two parts and of the late part, 20 % of the abort part, 10 % of the "
+        "no-argument part, plus 3000 random scripts (30 % of them with late puts, 30 % with slow cancellation, 15 % "
+        "without arguments and with random empty data). Compared with the Lean model: the complete time-stamped log of output changes, "
         "coroutine start/end/cancellation and success/error/cancel events in the implementation's order (start "
         "mode: per instant as a set plus the output at the end of the instant, because equal timers fire in heap "
         "order), and the instant at which stop_async finished. distinct = hash of (lines, trace); non-trivial = at "
@@ -149,6 +155,26 @@ def grid_late():
                                            'stop': [stop, sp], 'late': late, 'slow_cancel': slow}
 
 
+def grid_noargs():
+    """a coroutine without arguments (f_args=(), f_kwargs=()): event data may be the EMPTY mapping -- `blk.event('put')`
+    as a direct call, `stop_data={}` -- or an ordinary one (see RULE)"""
+    arrivals = [[[slot, 'B', dur, False]] for slot in (0, 1, 3) for dur in DURS]
+    arrivals += [[[a, 'B', da, False], [b, 'B', db, False]]
+                 for a, b in itertools.combinations_with_replacement((0, 1, 3), 2) for da in DURS for db in DURS]
+    for puts in arrivals:
+        ids = list(range(1, len(puts) + 1))
+        for r in range(len(ids) + 1):
+            for empties in itertools.combinations(ids, r):
+                for stop in STOPS[:3]:
+                    for sp in 'AB':
+                        for sd in (None, 'empty', 'full'):
+                            for mode in MODES:
+                                for guard in (0, GUARD):
+                                    yield {'mode': mode, 'guard': guard, 'stop_data': sd is not None, 'puts': puts,
+                                           'stop': [stop, sp], 'noargs': True,
+                                           'empty': list(empties) + ([SD_ID] if sd == 'empty' else [])}
+
+
 def random_scn(rng):
     k = 4 if rng.random() < 0.8 else rng.randint(1, 6)
     puts = sorted(([rng.randrange(10), rng.choice(PLACES), rng.randint(1, 4), rng.random() < 0.2]
@@ -164,6 +190,10 @@ def random_scn(rng):
                         rng.randint(1, 4), rng.random() < 0.2] for _ in range(rng.randint(1, 3))]
     if rng.random() < 0.3:
         scn['slow_cancel'] = rng.randint(1, 4)
+    if rng.random() < 0.15:
+        ids = list(range(1, len(puts) + len(scn.get('late', ())) + 1)) + ([SD_ID] if scn['stop_data'] else [])
+        scn['noargs'] = True
+        scn['empty'] = [i for i in ids if rng.random() < 0.5]
     return scn
 
 
@@ -189,6 +219,10 @@ FIXED = [
     {'mode': 'cancel', 'guard': 2, 'stop_data': False, 'puts': [[0, 'B', 5, False], [1, 'B', 3, False]], 'stop': [2, 'B'], 'late': [[2, 'S', 1, False], [3, 'A', 1, False]]},
     {'mode': 'wait', 'guard': 0, 'stop_data': True, 'puts': [[0, 'B', 3, False], [1, 'B', 3, False]], 'stop': [2, 'T'], 'late': [[2, 'S', 1, False], [2, 'N', 1, True], [4, 'B', 1, False]]},
     {'mode': 'start', 'guard': 2, 'stop_data': True, 'puts': [[0, 'B', 3, False]], 'stop': [1, 'A'], 'late': [[1, 'N', 1, False], [30, 'A', 1, False]]},
+    # a coroutine without arguments: `blk.event('put')` with no data at all, an ordinary put, stop_data={}
+    {'mode': 'wait', 'guard': 0, 'stop_data': True, 'noargs': True, 'empty': [1, 3, 99], 'puts': [[0, 'B', 1, False], [2, 'B', 1, False], [4, 'A', 1, True]], 'stop': [6, 'A']},
+    {'mode': 'cancel', 'guard': 2, 'stop_data': True, 'noargs': True, 'empty': [2, 99], 'puts': [[0, 'B', 3, False], [1, 'B', 3, False], [1, 'B', 1, False]], 'stop': [2, 'A']},
+    {'mode': 'start', 'guard': 0, 'stop_data': True, 'noargs': True, 'empty': [1, 2, 99], 'puts': [[0, 'B', 3, False], [1, 'T', 2, False]], 'stop': [3, 'B']},
 ]
 
 
@@ -207,12 +241,16 @@ def scenarios(rng, tier):
         for scn in grid_late():
             if rng.random() < 0.03:
                 yield scn
+        for scn in grid_noargs():
+            if rng.random() < 0.1:
+                yield scn
         nrandom = 3000
     else:
         yield from grid()
         yield from grid_timeouts()
         yield from grid_abort()
         yield from grid_late()
+        yield from grid_noargs()
         nrandom = 40000
     for _ in range(nrandom):
         yield random_scn(rng)
@@ -235,6 +273,8 @@ def shrink(scn):
         yield {**scn, 'late': late[:i] + late[i + 1:]}
     if scn.get('slow_cancel'):
         yield {**scn, 'slow_cancel': 0}
+    for e in scn.get('empty', ()):
+        yield {**scn, 'empty': [x for x in scn['empty'] if x != e]}
     for i, p in enumerate(puts):
         if p[3]:
             yield {**scn, 'puts': puts[:i] + [[p[0], p[1], p[2], False]] + puts[i + 1:]}
@@ -259,6 +299,14 @@ class _Run:
         self.gets_at_last_put = None
         self.stopped = False
         self.end_us = None
+        # coroutine without arguments (f_args=()): which put a data object belongs to is known by identity
+        self.noargs = bool(scn.get('noargs'))
+        self.empty_ids = set(scn.get('empty', ()))     # ids of the puts whose data is the EMPTY mapping
+        self.obj_ids = {}           # id(data object) -> put id
+        self.keep = []              # the data objects (kept alive: identities stay unique)
+        self.pending_id = None      # the put being delivered right now
+        self.params = {}            # put id -> (dur, fail): the script of a run that gets no arguments
+        self.current = contextvars.ContextVar('c12_current_data')
 
     def now(self):
         return asyncio.get_running_loop().now_us - self.t0
@@ -287,6 +335,13 @@ class _Run:
             raise RuntimeError(f'run {id} failed')
         return id * 10
 
+    async def work0(self):
+        """the user coroutine of a block with f_args=(): it is told nothing; the harness knows from the
+        identity of the data object of the running output task which put this is"""
+        pid = self.obj_ids.get(id(self.current.get()))
+        dur, fail = self.params[pid]
+        return await self.work(pid, dur, fail)
+
     def pre(self):
         """1 = the stimulus comes before the block's own pending events of this instant, 0 = after them.
         cancel mode: while the control task waits for its output task (`await task`) the stimulus always
@@ -312,15 +367,25 @@ class _Run:
                         run.last_internal = t
                     run.log.append((t, 'out', data['value']))
                 else:
-                    put = data.get('put') or {}
-                    run.log.append((t, etype, put.get('id')))
-                    run.results.append((t, etype, put.get('id'), dict(data)))
+                    put = data.get('put')
+                    pid = run.obj_ids.get(id(put)) if run.noargs else (put or {}).get('id')
+                    run.log.append((t, etype, pid))
+                    run.results.append((t, etype, pid, dict(data)))
                 return None
 
         p = P('p')
         sd = {'id': SD_ID, 'dur': SD_DUR, 'fail': False} if scn['stop_data'] else None
+        if sd is not None and SD_ID in self.empty_ids:
+            sd = {}                 # a legal, "present" stop_data of a coroutine without arguments
+        self.params[SD_ID] = (SD_DUR, False)
+        for k, (_slot, _place, dur, fail) in enumerate(scn['puts']):
+            self.params[k + 1] = (dur, fail)
+        for lid, (_slot, _place, dur, fail) in self.late():
+            self.params[lid] = (dur, fail)
         oa = edzed.OutputAsync(
-            'oa', coro=self.work, mode=scn['mode'], f_args=['id', 'dur'], f_kwargs=['fail'],
+            'oa', mode=scn['mode'],
+            **(dict(coro=self.work0, f_args=(), f_kwargs=()) if self.noargs
+               else dict(coro=self.work, f_args=['id', 'dur'], f_kwargs=['fail'])),
             guard_time=(scn['guard'] * TICK / 1e6 if scn['guard'] else None),
             on_success=edzed.Event(p, 'succ'), on_cancel=edzed.Event(p, 'canc'),
             # 'abort': the customary on_error=Event.abort() -- a failing run shuts the simulation down
@@ -341,14 +406,34 @@ class _Run:
                 self.gets += 1
                 return item
 
+            def put_nowait(self, item):
+                if item is not None:        # remember which put this data object is
+                    run.obj_ids[id(item)] = run.pending_id
+                    run.keep.append(item)
+                super().put_nowait(item)
+
         def start():
             orig_start()
             oa._queue = CountingQueue()     # the control task has not run yet
         oa.start = start
 
+        if self.noargs:
+            if sd is not None:      # start mode hands the stop_data object itself to the wrapper
+                self.obj_ids[id(oa._stop_data)] = SD_ID
+            orig_output_coro = oa._output_coro
+
+            async def output_coro(data):
+                token = self.current.set(data)
+                try:
+                    await orig_output_coro(data)
+                finally:
+                    self.current.reset(token)
+            oa._output_coro = output_coro
+
         def stop():
             self.stim.append(('stop', self.now(), self.pre(), self.batch()))
             self.stopped = True
+            self.pending_id = SD_ID
             orig_stop()
             for lid, (_slot, place, dur, fail) in self.late():
                 if place == 'S':            # in the very step that called stop()
@@ -389,8 +474,17 @@ class _Run:
         t = self.now()
         batch = self.batch()
         pre = self.pre()
+        self.pending_id = id
+        empty = id in self.empty_ids
         try:
-            if internal:    # block-to-block events are delivered also during the clean-up
+            if self.noargs:
+                # a direct call: `Event` / `ExtEvent` would add 'source'; no data at all is a legal event
+                # for a coroutine without arguments
+                if empty:
+                    oa.event('put')
+                else:
+                    oa.event('put', id=id, dur=dur, fail=fail)
+            elif internal:  # block-to-block events are delivered also during the clean-up
                 oa.event('put', id=id, dur=dur, fail=fail, source='late')
             else:
                 edzed.ExtEvent(oa).send(id=id, dur=dur, fail=fail)
@@ -399,7 +493,7 @@ class _Run:
             ok = False
         if ok:
             self.last_put_t, self.gets_at_last_put = t, oa._queue.gets
-        self.stim.append(('put', t, pre, batch, id, dur, fail, ok))
+        self.stim.append(('put', t, pre, batch, id, dur, fail, ok, int(empty)))
 
     async def drive(self, sim, oa):
         loop = self.loop = sim.loop
@@ -467,16 +561,16 @@ def fmt_log(log, mode):
 def run_impl(scn):
     run = execute(scn)
     mode = scn['mode']
-    sd = f'{SD_ID}:{SD_DUR * TICK}:0' if scn['stop_data'] else '-'
+    sd = f"{SD_ID}:{SD_DUR * TICK}:0:{int(SD_ID in scn.get('empty', ()))}" if scn['stop_data'] else '-'
     lines = [f"oasync reset {mode} {scn['guard'] * TICK} {sd} {scn.get('stop_timeout', BIG_TIMEOUT) * TICK}"]
     trace = ['ok']
     stop_seen = False
     for st in run.stim:
         if st[0] == 'put':
-            _, t, pre, batch, id, dur, fail, ok = st
+            _, t, pre, batch, id, dur, fail, ok, empty = st
             if not ok:
                 continue        # refused by the circuit (shutting down): never reached the block
-            lines.append(f'oasync put {t} {pre} {batch} {id} {dur * TICK} {int(fail)}')
+            lines.append(f'oasync put {t} {pre} {batch} {id} {dur * TICK} {int(fail)} {empty}')
             # a put that reaches the block after its stop() lands behind the sentinel
             trace.append('late' if stop_seen else 'ok')
         else:
@@ -493,6 +587,12 @@ def run_impl(scn):
     trace.append(fmt_log(run.log, mode))
     accepted = [st for st in run.stim if st[0] == 'put' and st[7]]
     tags = ['on_error=abort'] if scn.get('abort') else []
+    if scn.get('noargs'):
+        tags.append('f_args=()')
+        if any(st[0] == 'put' and st[8] for st in run.stim):
+            tags.append('empty-event-data')
+        if SD_ID in scn.get('empty', ()):
+            tags.append('stop_data={}')
     tags += [f'mode={mode}', f"guard={'y' if scn['guard'] else 'n'}", f"stop_data={int(scn['stop_data'])}",
             f'nputs={len(accepted)}']
     kinds = {k for _, k, _ in run.log}
@@ -598,8 +698,11 @@ def oracle(scn, res):
             continue
         t, k, data = r[0]
         _, _, dur, fail = script[i]
-        put = data.get('put') or {}
-        if (put.get('id'), put.get('dur'), put.get('fail')) != (i, dur, fail):
+        put = data.get('put')
+        if i in scn.get('empty', ()):
+            if put != {}:
+                bad('result_carries_original_data', f'put {i} (empty event data): result event carries put={put}')
+        elif put is None or (put.get('id'), put.get('dur'), put.get('fail')) != (i, dur, fail):
             bad('result_carries_original_data', f'put {i}: result event carries put={put}')
         if i in ends:
             want = 'err' if fail else 'succ'
